@@ -475,12 +475,21 @@ var<workgroup> wg: u32;
 `)
 	stage := rapid.SampledFrom([]string{"@fragment fn main() -> @location(0) vec4<f32> {", "@compute @workgroup_size(1) fn main() {"}).Draw(t, "stage")
 	b.WriteString(stage + "\n")
-	for k := rapid.IntRange(1, 3).Draw(t, "ncalls"); k > 0; k-- {
+	for k := rapid.IntRange(1, 8).Draw(t, "ncalls"); k > 0; k-- {
 		fn := rapid.SampledFrom(arityBuiltins).Draw(t, "fn")
 		n := rapid.IntRange(0, 8).Draw(t, "nargs")
+		if rapid.Bool().Draw(t, "near") {
+			n = rapid.IntRange(2, 6).Draw(t, "nargsNear") // around the real arities
+		}
 		args := make([]string, n)
 		for i := range args {
 			args[i] = rapid.SampledFrom(arityArgs).Draw(t, "arg")
+		}
+		if strings.HasPrefix(fn, "texture") && n > 0 && rapid.IntRange(0, 3).Draw(t, "tex0") > 0 {
+			args[0] = rapid.SampledFrom(arityArgs[:15]).Draw(t, "tex") // a texture first, as in every real overload
+			if n > 1 && rapid.Bool().Draw(t, "smp1") {
+				args[1] = rapid.SampledFrom([]string{"smp", "smpc"}).Draw(t, "smp")
+			}
 		}
 		call := fn + "(" + strings.Join(args, ", ") + ")"
 		switch rapid.IntRange(0, 2).Draw(t, "use") {
